@@ -55,8 +55,10 @@ pub fn check(c: &Case, rec: &mut Rec) -> Result<(), String> {
         Some(seed) => {
             let n = if c.machine == Machine::K48 { 1 } else { 2 };
             let pages: Vec<Vec<u8>> = (0..n).map(|i| pattern(seed, 100 + i, mach::PAGE)).collect();
+            // delivered in short reads for two seeds out of three
             e.load_rom(MemRomSet {
                 pages: pages.clone().into(),
+                chunk: if seed % 3 == 0 { 0 } else { (seed % 5000) as usize + 1 },
             })
             .map_err(|err| format!("load_rom failed: {:?}", err))?;
             pages
@@ -131,7 +133,7 @@ pub fn check(c: &Case, rec: &mut Rec) -> Result<(), String> {
             Op::LoadRom { seed } => {
                 let n = if c.machine == Machine::K48 { 1 } else { 2 };
                 let pages: Vec<Vec<u8>> = (0..n).map(|i| pattern(*seed, 200 + i, mach::PAGE)).collect();
-                e.load_rom(MemRomSet { pages: pages.clone().into() }).map_err(|err| format!("op {}: load_rom failed: {:?}", k, err))?;
+                e.load_rom(MemRomSet { pages: pages.clone().into(), chunk: (*seed % 3000) as usize }).map_err(|err| format!("op {}: load_rom failed: {:?}", k, err))?;
                 m.rom = pages;
                 rec.class("rom-set-reloaded-mid-history");
                 if m.latch & 0x10 != 0 {
@@ -301,7 +303,7 @@ pub fn replay(run: &mut Run, phase: &str, case: &serde_json::Value) -> Result<()
 }
 
 pub const LEVEL: &str = "exploration";
-pub const RULE: &str = "case = machine x ROM set (embedded / host-supplied images) x history of 1..300 ops over {OUT (C),A to paging-class and near-miss ports with any value, LD (HL),A, LD (nn),HL, PUSH, LD A,(HL), host load_rom of another generated ROM set} at window-edge-biased addresses, executed by the emulated CPU one instruction at a time; every read is compared with the reference memory map and after the history all 65536 peeks, every RAM bank and the paging state are compared. non-trivial = an accepted paging write followed by a read through 0x0000-0x3FFF or 0xC000-0xFFFF, or bank 5/2 paged at 0xC000 (alias), or a paging write after lock; distinct = hash of the case";
+pub const RULE: &str = "case = machine x ROM set (embedded / host-supplied images, the latter delivered by assets that return everything at once or at most 1..5000 bytes per read call) x history of 1..300 ops over {OUT (C),A to paging-class and near-miss ports with any value, LD (HL),A, LD (nn),HL, PUSH, LD A,(HL), host load_rom of another generated ROM set} at window-edge-biased addresses, executed by the emulated CPU one instruction at a time; every read is compared with the reference memory map and after the history all 65536 peeks, every RAM bank and the paging state are compared. non-trivial = an accepted paging write followed by a read through 0x0000-0x3FFF or 0xC000-0xFFFF, or bank 5/2 paged at 0xC000 (alias), or a paging write after lock; distinct = hash of the case";
 pub const ASSUMPTIONS: &[&str] = &[
     "paging-class ports are generated with A0=1 only (an even address also selects the ULA; which device wins there is outside C06)",
     "instruction stubs are placed at 0x8000 (bank 2 / 48K page 1) through the RAM hook before every op",
